@@ -170,8 +170,13 @@ func parsesPastFirstField(s []byte) bool {
 // ---- generated canonical encodings and derived byte strings ---------------------------------------------------------
 
 func genTx(t *rapid.T, label string) *blockchain.Transaction {
+	return genTxShape(t, label, rapid.IntRange(0, 5).Draw(t, label+"_shape"))
+}
+
+// genTxShape: shape 0 = every field empty, 1/2 = the shape Validate() asks for, 3.. = anything the schema can hold.
+func genTxShape(t *rapid.T, label string, shape int) *blockchain.Transaction {
 	tx := &blockchain.Transaction{}
-	switch rapid.IntRange(0, 5).Draw(t, label+"_shape") {
+	switch shape {
 	case 0: // every field empty
 	case 1, 2: // the shape Validate() asks for
 		tx.Module = rapid.SampledFrom([]string{"token", "pos", "a", "interoperability", "Module9"}).Draw(t, label+"_module")
